@@ -85,6 +85,64 @@ class Cls:
         return "<Cls %s>" % self.name
 
 
+def canonicalise(tree):
+    """Semantics-preserving rewrites applied to every module before any analysis, so that the rules see one spelling:
+      * `xs += [e]`                      ->  `xs.append(e)`            (xs a plain name)
+      * `t = <expr>` ; `if t:` / `if not t:` / `return t`  ->  the expression in place, when t is assigned once and read once,
+        right after its assignment in the same block
+      * `not (a in b)` -> `a not in b`, `not (a not in b)` -> `a in b`, `not (a == b)` -> `a != b`, `not (a != b)` -> `a == b`
+    Positions are kept, so reports still point at the original lines."""
+    for fn in [n for n in ast.walk(tree) if isinstance(n, (ast.FunctionDef, ast.AsyncFunctionDef))]:
+        loads, stores = {}, {}
+        for x in ast.walk(fn):
+            if isinstance(x, ast.Name):
+                (stores if isinstance(x.ctx, ast.Store) else loads).setdefault(x.id, []).append(x)
+        for owner in [n for n in ast.walk(fn)]:
+            for blk in ("body", "orelse", "finalbody"):
+                seq = getattr(owner, blk, None)
+                if not isinstance(seq, list) or not seq or not isinstance(seq[0], ast.stmt):
+                    continue
+                i = 0
+                while i < len(seq):
+                    st = seq[i]
+                    if isinstance(st, ast.AugAssign) and isinstance(st.op, ast.Add) and isinstance(st.target, ast.Name) and isinstance(st.value, ast.List) \
+                            and len(st.value.elts) == 1 and not isinstance(st.value.elts[0], ast.Starred):
+                        call = ast.Call(func=ast.Attribute(value=ast.Name(id=st.target.id, ctx=ast.Load()), attr="append", ctx=ast.Load()), args=[st.value.elts[0]], keywords=[])
+                        new = ast.Expr(value=call)
+                        for x in (new, call, call.func, call.func.value):
+                            ast.copy_location(x, st)
+                        seq[i] = new
+                    if i + 1 < len(seq) and isinstance(st, ast.Assign) and len(st.targets) == 1 and isinstance(st.targets[0], ast.Name) \
+                            and len(stores.get(st.targets[0].id, [])) == 1 and len(loads.get(st.targets[0].id, [])) == 1:
+                        t = st.targets[0].id
+                        use = loads[t][0]
+                        nxt = seq[i + 1]
+                        done = False
+                        if isinstance(nxt, ast.If):
+                            if nxt.test is use:
+                                nxt.test, done = st.value, True
+                            elif isinstance(nxt.test, ast.UnaryOp) and isinstance(nxt.test.op, ast.Not) and nxt.test.operand is use:
+                                nxt.test.operand, done = st.value, True
+                        elif isinstance(nxt, ast.Return) and nxt.value is use:
+                            nxt.value, done = st.value, True
+                        if done:
+                            del seq[i]
+                            continue
+                    i += 1
+    class _Neg(ast.NodeTransformer):
+        def visit_UnaryOp(self, node):
+            self.generic_visit(node)
+            if isinstance(node.op, ast.Not) and isinstance(node.operand, ast.Compare) and len(node.operand.ops) == 1:
+                flip = {ast.In: ast.NotIn, ast.NotIn: ast.In, ast.Eq: ast.NotEq, ast.NotEq: ast.Eq, ast.Is: ast.IsNot, ast.IsNot: ast.Is}
+                op = node.operand.ops[0]
+                if type(op) in flip:
+                    new = ast.Compare(left=node.operand.left, ops=[flip[type(op)]()], comparators=node.operand.comparators)
+                    return ast.copy_location(new, node)
+            return node
+    _Neg().visit(tree)
+    ast.fix_missing_locations(tree)
+
+
 class Mod:
     def __init__(self, name, path):
         self.name = name
@@ -94,6 +152,7 @@ class Mod:
         self.sha256 = hashlib.sha256(raw).hexdigest()
         self.text = raw.decode("utf-8")
         self.tree = ast.parse(self.text, filename=path)
+        canonicalise(self.tree)
         add_parents(self.tree)
         self.funcs = {}
         self.classes = {}
